@@ -94,9 +94,65 @@ type Key struct {
 	Bytes  []byte               // exported public key bytes
 	Pub    *cryptoapi.PublicKey // ECDH types
 	DidKey string
-	DocRef string // did:example:k<Name>#key-1 (a document with this single key agreement key)
-	PDoc   string // did:example:p<Owner>#key-<Name> (the party's document with all its key agreement keys)
+	w      *World
 }
+
+// KeyDID is the DID of the document that holds this single key agreement key (id <did>#key-1).  The DIDs are of
+// realistic methods: did:web with dots, did:peer:2 with dot-separated elements, did:example.
+func (k *Key) KeyDID() string {
+	switch k.Name % 3 {
+	case 0:
+		return fmt.Sprintf("did:web:agent%d.example.com", k.Name)
+	case 1:
+		return fmt.Sprintf("did:peer:2.Ez6LSk%dxQ.Vz6Mkk%dyR.SeyJ0IjoiZG0ifQ", k.Name, k.Name)
+	}
+
+	return fmt.Sprintf("did:example:k%d", k.Name)
+}
+
+// PartyDID is the DID of the party's document that lists ALL its key agreement keys.
+func PartyDID(p int) string {
+	switch p % 3 {
+	case 0:
+		return fmt.Sprintf("did:web:party%d.agents.example.org", p)
+	case 1:
+		return fmt.Sprintf("did:peer:2.Ez6LSp%daQ.Vz6Mkp%dbR", p, p)
+	}
+
+	return fmt.Sprintf("did:example:p%d", p)
+}
+
+// PartyKeys are the party's key agreement keys in document order.
+func (w *World) PartyKeys(p int) []*Key {
+	var ks []*Key
+
+	for _, k := range w.Keys {
+		if k.Owner == p && k.Pub != nil {
+			ks = append(ks, k)
+		}
+	}
+
+	return ks
+}
+
+// Fragment of the key in its party's document.  The fragments of one document are suffixes of one another, the
+// longer ones listed first ("alt-alt-key-1", "alt-key-1", "key-1"): only an exact fragment match resolves them.
+func (k *Key) Fragment() string {
+	ks := k.w.PartyKeys(k.Owner)
+	for j, x := range ks {
+		if x == k {
+			return strings.Repeat("alt-", len(ks)-1-j) + "key-1"
+		}
+	}
+
+	return "key-1"
+}
+
+// DocRef is <KeyDID>#key-1.
+func (k *Key) DocRef() string { return k.KeyDID() + "#key-1" }
+
+// PDoc is <PartyDID>#<Fragment>.
+func (k *Key) PDoc() string { return PartyDID(k.Owner) + "#" + k.Fragment() }
 
 // Party is an agent: its own KMS, crypto, packers.
 type Party struct {
@@ -159,7 +215,7 @@ func (w *World) NewKey(owner int, kt string) *Key {
 		panic(err)
 	}
 
-	k := &Key{Name: len(w.Keys) + 1, Owner: owner, KT: kt, KMSKID: kid, Bytes: b}
+	k := &Key{Name: len(w.Keys) + 1, Owner: owner, KT: kt, KMSKID: kid, Bytes: b, w: w}
 
 	k.DidKey, err = kmsdidkey.BuildDIDKeyByKeyType(b, kmsType(kt))
 	if err != nil {
@@ -172,10 +228,6 @@ func (w *World) NewKey(owner int, kt string) *Key {
 			panic(e)
 		}
 
-		k.DocRef = fmt.Sprintf("did:example:k%d#key-1", k.Name)
-		k.PDoc = fmt.Sprintf("did:example:p%d#key-%d", owner, k.Name)
-		w.byRef[k.DocRef] = k
-		w.byRef[k.PDoc] = k
 	} else {
 		w.byRef[base58.Encode(b)] = k
 	}
@@ -190,9 +242,9 @@ func (w *World) NewKey(owner int, kt string) *Key {
 func (k *Key) Ref(style string) string {
 	switch style {
 	case "diddoc":
-		return k.DocRef
+		return k.DocRef()
 	case "pdoc":
-		return k.PDoc
+		return k.PDoc()
 	case "raw":
 		return base58.Encode(k.Bytes)
 	}
@@ -201,7 +253,19 @@ func (k *Key) Ref(style string) string {
 }
 
 // ByRef finds the key a reference names.
-func (w *World) ByRef(ref string) *Key { return w.byRef[ref] }
+func (w *World) ByRef(ref string) *Key {
+	if k := w.byRef[ref]; k != nil {
+		return k
+	}
+
+	for _, k := range w.Keys {
+		if k.Pub != nil && (k.DocRef() == ref || k.PDoc() == ref) {
+			return k
+		}
+	}
+
+	return nil
+}
 
 func (w *World) vm(k *Key, id, controller string) did.Verification {
 	j, err := jwkkid.BuildJWK(k.Bytes, kmsType(k.KT))
@@ -225,20 +289,26 @@ func (w *World) vm(k *Key, id, controller string) did.Verification {
 func (w *World) resolve(id string, _ ...vdrspi.DIDMethodOption) (*did.DocResolution, error) {
 	var doc *did.Doc
 
-	switch {
-	case strings.HasPrefix(id, "did:example:k"):
-		for _, k := range w.Keys {
-			if k.Pub != nil && strings.HasPrefix(k.DocRef, id+"#") {
-				doc = &did.Doc{ID: id, KeyAgreement: []did.Verification{w.vm(k, k.DocRef, id)}}
-			}
+	for _, k := range w.Keys {
+		if k.Pub != nil && k.KeyDID() == id {
+			doc = &did.Doc{ID: id, KeyAgreement: []did.Verification{w.vm(k, k.DocRef(), id)}}
 		}
-	case strings.HasPrefix(id, "did:example:p"):
+	}
+
+	for p := range w.Parties {
+		if PartyDID(p) != id {
+			continue
+		}
+
 		doc = &did.Doc{ID: id}
 
-		for _, k := range w.Keys {
-			if k.Pub != nil && strings.HasPrefix(k.PDoc, id+"#") {
-				doc.KeyAgreement = append(doc.KeyAgreement, w.vm(k, k.PDoc, id))
+		for _, k := range w.PartyKeys(p) {
+			vmID := k.PDoc()
+			if p%2 == 1 {
+				vmID = "#" + k.Fragment() // relative verification method ids
 			}
+
+			doc.KeyAgreement = append(doc.KeyAgreement, w.vm(k, vmID, id))
 		}
 
 		if len(doc.KeyAgreement) == 0 {
@@ -355,7 +425,7 @@ func (w *World) keyOfJSON(b []byte) int {
 
 	pk := &cryptoapi.PublicKey{}
 	if json.Unmarshal(b, pk) == nil && pk.KID != "" {
-		k := w.byRef[pk.KID]
+		k := w.ByRef(pk.KID)
 		if k == nil || k.Pub == nil {
 			return -1
 		}
